@@ -80,14 +80,17 @@ def is_first_seen_idiom(ctx, site):
     return bool(resets) and fl.cfg.must_pass(gid, resets)
 
 
-def run_cache_rule(ctx, ck, only=None, rule='R-CACHE.owner-only'):
-    """R-CACHE over all memo sites (or those whose key is in `only`)"""
+def run_cache_rule(ctx, ck, only=None, rule='R-CACHE.owner-only', within=None):
+    """R-CACHE over all memo sites (or those whose key is in `only`, or that live in one of the functions `within`)"""
     sites = find_memo_sites(ctx.model, ctx)
     n = 0
     seen = {}
     for s in sites:
         key = s.key
-        if only is not None and key not in only and (s.func.qual, s.attr) not in only:
+        if within is not None:
+            if s.func.qual not in within:
+                continue
+        elif only is not None and key not in only and (s.func.qual, s.attr) not in only:
             continue        # (`only` names sites by key or by (function, attribute) - whatever object holds it)
         if is_registration_idiom(s) or is_first_seen_idiom(ctx, s):
             continue
@@ -580,9 +583,12 @@ def run(ctx, ck):
 
     # ---------------------------------------------------------------- D3 sweep loop
     mainf = m.func('mininec.main')
+    if not [l for l in loops_in(mainf.node) if isinstance(l, ast.For) and calls_in(l, attr='compute')]:
+        mainf = ctx.flat('mininec.main')        # (the sweep may live in an output helper of main)
     mfl = ctx.flow(mainf)
     sweeps = [l for l in loops_in(mainf.node) if isinstance(l, ast.For) and
-              calls_in(l, attr='compute')]
+              calls_in(l, attr='compute') and
+              not (isinstance(l.target, ast.Name) and l.target.id.startswith('__once'))]   # (inlining artefact)
     ck.floor('sweep loops in main', len(sweeps), 1)
     for l in sweeps:
         comp = calls_in(l, attr='compute')
